@@ -72,6 +72,7 @@ theorem step_histEq {s : St} (op : Op) (h : Inv s) (he : HistEq s) : HistEq (ste
   | close => simp only [step]; split <;> first | exact he | exact viaFlush
   | peerfin => simp only [step]; split <;> exact he
   | dump => exact he
+  | snoopBy k => exact he
 
 /-- state form of `delivered_is_ordered_prefix_image`: after every run, the bytes accepted by send() followed by the ring
 contents are exactly the bytes ever stored, in the order they were stored - nothing duplicated, nothing reordered. -/
@@ -182,6 +183,7 @@ theorem step_histR_of_not_write {s : St} (h : Inv s) (op : Op) (hw : ∀ v d, op
   | close => simp only [step]; split <;> first | rfl | exact viaFlush
   | peerfin => simp only [step]; split <;> rfl
   | dump => rfl
+  | snoopBy k => rfl
 
 /-- **`delivered_is_ordered_prefix_image`.**  For every send script and every list of operations there are per-write prefix
 lengths `ns` - one for each text written, each the whole text unless the connection was unusable or the ring was still
